@@ -104,7 +104,7 @@ NegCatalog == <<
 
 C(id, t) == [id |-> id, t |-> t]
 
-Catalog == <<
+Core == <<
   C("u8", U8), C("u32", U32), C("u128", U128), C("i16", I16), C("unit", Unit), C("bool", BoolT),
   C("le_u16", LeU16), C("be_u32", BeU32), C("le_f32", LeF32),
   C("arr_bool3", Arr(BoolT, 3)), C("arr_u16_2", Arr(U16, 2)), C("arr_u8_0", Arr(U8, 0)),
@@ -124,6 +124,32 @@ Catalog == <<
   C("US9", US9), C("US10", US10), C("PE16", PE16), C("PS32", PS32), C("V_unit_u8", V_unit_u8)
 >>
 
-CatIds == {Catalog[i].id : i \in DOMAIN Catalog}
-TypeOf(id) == Catalog[CHOOSE i \in DOMAIN Catalog : Catalog[i].id = id].t
+(***************************************************************************)
+(* The sweep: systematic families of definitions over the alignments       *)
+(* 1, 2, 4, 8 (C04: "every permutation/selection of field types"), used by *)
+(* the layout, emplacement and codec models with small value sets.         *)
+(***************************************************************************)
+\* (written without recursive operators so that TLC evaluates the catalog once, as a constant)
+SwF == <<U8, U16, U32, U64>>
+SwTail == <<V_u8_u8, Vec(U16, U8), V_u8_u16>>
+SwName(p, i, j, k) == p \o ToString(i) \o ToString(j) \o ToString(k)
+\* unsized structs { a, b, tail }: 4 x 4 x 2
+SweepStructs == [n \in 1..32 |->
+                   LET i == ((n - 1) \div 8) + 1  j == (((n - 1) \div 2) % 4) + 1  k == ((n - 1) % 2) + 1 IN
+                   C(SwName("WS", i, j, k), UStruct(SwName("WS", i, j, k), <<SwF[i], SwF[j], SwTail[k]>>))]
+\* unsized enums { unit, (a, b, c), (b, a, tail) } over the alignments 1, 2, 4: 3 x 3 x 3
+SweepEnums == [n \in 1..27 |->
+                   LET i == ((n - 1) \div 9) + 1  j == (((n - 1) \div 3) % 3) + 1  k == ((n - 1) % 3) + 1 IN
+                   C(SwName("WE", i, j, k), UEnum(SwName("WE", i, j, k), 1, << <<>>, <<SwF[i], SwF[j], SwF[k]>>, <<SwF[j], SwF[i], SwTail[3]>> >>))]
+\* sized structs (a, Bool, b) with a default, tuple style for half of them: 4 x 4
+SweepSized == [n \in 1..16 |->
+                   LET i == ((n - 1) \div 4) + 1  j == ((n - 1) % 4) + 1 IN
+                   C(SwName("WT", i, j, 0), WithDefault(IF (i + j) % 2 = 0 THEN Tuple(Struct(SwName("WT", i, j, 0), <<SwF[i], BoolT, SwF[j]>>))
+                                                                            ELSE Struct(SwName("WT", i, j, 0), <<SwF[i], BoolT, SwF[j]>>), 1))]
+Sweep == SweepStructs \o SweepEnums \o SweepSized
+CoreIds == {Core[i].id : i \in DOMAIN Core}
+Catalog == Core \o Sweep
+SweepIds == {Sweep[i].id : i \in DOMAIN Sweep}
+CatIds == CoreIds
+TypeOf(id) == LET cat == Catalog IN cat[CHOOSE i \in DOMAIN cat : cat[i].id = id].t
 =============================================================================
